@@ -362,6 +362,19 @@ func (r *Reader) traverseNode(n *html.Node, ctx *parseContext) {
 
 // traverseNodeFiltered recursively processes DOM nodes with exclusion filtering.
 // Results are appended to the elements slice.
+// flushPendingList emits the list items collected so far, so that whatever is
+// appended next stays behind them in document order.
+func flushPendingList(ctx *parseContext, elements *[]parsedElement) {
+	if ctx.inList && len(ctx.listItems) > 0 {
+		*elements = append(*elements, parsedElement{
+			Type:    ElementList,
+			Items:   ctx.listItems,
+			Ordered: ctx.listOrdered,
+		})
+		ctx.listItems = nil
+	}
+}
+
 func (r *Reader) traverseNodeFiltered(n *html.Node, ctx *parseContext, elements *[]parsedElement) {
 	if n.Type == html.ElementNode {
 		// Skip non-content elements
@@ -411,6 +424,7 @@ func (r *Reader) traverseNodeFiltered(n *html.Node, ctx *parseContext, elements 
 
 			text := strings.TrimSpace(getTextContent(n))
 			if text != "" && !isBlockContainer(n) {
+				flushPendingList(ctx, elements)
 				*elements = append(*elements, parsedElement{
 					Type: ElementParagraph,
 					Text: text,
@@ -510,6 +524,7 @@ func (r *Reader) traverseNodeFiltered(n *html.Node, ctx *parseContext, elements 
 		case "pre", "code":
 			text := getTextContent(n)
 			if text != "" {
+				flushPendingList(ctx, elements)
 				*elements = append(*elements, parsedElement{
 					Type:   ElementCode,
 					Text:   text,
@@ -521,6 +536,7 @@ func (r *Reader) traverseNodeFiltered(n *html.Node, ctx *parseContext, elements 
 		case "blockquote":
 			text := strings.TrimSpace(getTextContent(n))
 			if text != "" {
+				flushPendingList(ctx, elements)
 				*elements = append(*elements, parsedElement{
 					Type: ElementBlockquote,
 					Text: text,
